@@ -773,3 +773,28 @@ Lemma ex_array : run_arr_root no_narrow id_widen skip_all [0x93; 0xA1; 0x78; 0x0
     (gets [TgInt s32; TgInt s32; TgInt s32]) =
   Done [KOpen; KFalse; KVal (VInt 2); KVal (VInt 3); KClose] [0x07].
 Proof. vm_compute. reflexivity. Qed.
+
+(* ---------- fuel of the destructor on ARBITRARY input ---------- *)
+Lemma skip_progress d r : skip_value d = SOk r -> (length r < length d)%nat.
+Proof.
+  intros H. pose proof (skip_value_agrees d) as A. unfold agrees in A.
+  destruct (decode d) as [[v r']|] eqn:E.
+  - rewrite H in A. injection A as ->. eapply decode_shorter; eassumption.
+  - destruct A as [e A]. congruence.
+Qed.
+
+Lemma close_loop_fuel : forall fuel c size rest, (length rest < fuel)%nat -> close_loop fuel c size rest <> SFuel.
+Proof.
+  induction fuel as [|f IH]; intros c size rest Hf; [lia|]. cbn [close_loop].
+  destruct (c <? size); [|discriminate].
+  destruct (skip_value rest) as [r1|e|] eqn:E1; [|discriminate | exfalso; exact (skip_value_never_out_of_fuel _ E1)].
+  destruct (skip_value r1) as [r2|e|] eqn:E2; [|discriminate | exfalso; exact (skip_value_never_out_of_fuel _ E2)].
+  apply IH. apply skip_progress in E1. apply skip_progress in E2. lia.
+Qed.
+
+Lemma close_obj_fuel st rest : close_obj st rest <> SFuel.
+Proof.
+  unfold close_obj, reset_key. destruct (o_key st).
+  - destruct (skip_value rest) as [r|e|] eqn:E; [apply close_loop_fuel; lia | discriminate | exfalso; exact (skip_value_never_out_of_fuel _ E)].
+  - apply close_loop_fuel. lia.
+Qed.
